@@ -282,6 +282,18 @@ def handle (op : String) (args : List String) : Option String :=
     match oracle name args with
     | some b => some (boolStr b)
     | none => some "false"      -- an output that does not even parse as a mesh violates the contract
+  else if op == "c03.op.laplacian" || op == "c03.op.laplacian_shape" then
+    -- the Laplacian line is split: `laplacian_shape` = topology, indices, materials, attribute names and lengths (EXACT);
+    -- `laplacian` = the values of the smoothed attribute only (compared within the stated tolerance: Go sums the
+    -- neighbours in map order); every other attribute is compared exactly by the frame_spec oracle
+    match applyOp "laplacian" args, args with
+    | some (some [m]), name :: _ =>
+      if op == "c03.op.laplacian_shape" then some (showShape m)
+      else
+        let d := (m.attr? ⟨3, name⟩).getD []
+        some (" ".intercalate (("A" :: toString d.length :: d.flatMap (fun v => v.map fHexN))))
+    | some _, _ => some "rejected"
+    | none, _ => none
   else if op.startsWith "c03.op." then
     let name := (op.drop 7).toString
     (applyOp name args).map (showResults name)
